@@ -310,3 +310,64 @@ func (c *Ctx) ruleDescWriteGuard(rule string) {
 		}
 	}
 }
+
+// R-PRESENCE-NOT-VALUE: for default_value and packed the *presence* of the
+// field in the descriptor proto carries meaning of its own: `default = ""` is
+// a default, and `packed = false` overrides an inherited PACKED encoding, while
+// an absent option leaves the inherited value alone. protodesc may therefore
+// read the getter's value only where it has tested the pointer field for
+// presence; a test on the value (`GetDefaultValue() != ""`) or no test at all
+// (`IsPacked = opts.GetPacked()` for every field with options) loses the
+// distinction.
+var presenceFields = map[string]string{
+	"GetDefaultValue": "DefaultValue",
+	"GetPacked":       "Packed",
+}
+
+func (c *Ctx) rulePresenceNotValue(rule string, floor int) {
+	R, P := c.R, c.P
+	R.Rule(rule, "in reflect/protodesc (To*Proto writers and validate* excluded) every call of GetDefaultValue()/GetPacked() on a descriptorpb message is dominated by the passing edge of `<same receiver>.DefaultValue != nil` / `.Packed != nil`", floor)
+	for _, fi := range P.FuncsIn("reflect/protodesc") {
+		if fi.Decl.Body == nil {
+			continue
+		}
+		name := fi.Obj.Name()
+		if (strings.HasPrefix(name, "To") && strings.HasSuffix(name, "Proto")) || strings.HasPrefix(name, "validate") {
+			continue
+		}
+		info := fi.Info()
+		var g *FCFG
+		k := 0
+		walkAll(fi.Decl.Body, func(n ast.Node) bool {
+			call, ok := n.(*ast.CallExpr)
+			if !ok || len(call.Args) != 0 {
+				return true
+			}
+			se, ok := call.Fun.(*ast.SelectorExpr)
+			if !ok {
+				return true
+			}
+			field, ok := presenceFields[se.Sel.Name]
+			if !ok || !strings.HasPrefix(namedTypeName(info.TypeOf(se.X)), "types/descriptorpb.") {
+				return true
+			}
+			k++
+			if g == nil {
+				g = fi.CFG()
+			}
+			recv := exprStr(se.X)
+			ok = g.DominatedByCond(call, func(core ast.Expr, val bool) bool {
+				be, isBE := unparen(core).(*ast.BinaryExpr)
+				if !isBE || !isNilIdent(info, be.Y) {
+					return false
+				}
+				if exprStr(be.X) != recv+"."+field {
+					return false
+				}
+				return (be.Op == token.NEQ && val) || (be.Op == token.EQL && !val)
+			})
+			R.Check(ok, rule, fi.Key+" "+se.Sel.Name+"#"+itoa(k), P.Pos(call), "under `"+recv+"."+field+" != nil`", "the value of "+se.Sel.Name+"() is used where the presence of `"+field+"` was not established: an explicit empty default (`default = \"\"`) is taken for no default, or an absent `packed` option for `packed = false`; HasDefault()/IsPacked() then differ from the descriptor of generated code and the proto does not convert back losslessly")
+			return true
+		})
+	}
+}
